@@ -66,6 +66,7 @@ var relaySeq int
 var relayViol int
 var relayPanicLineMax int
 
+var reRelayNum = regexp.MustCompile(`\d+`)
 var reRelayDur = regexp.MustCompile(`(dur"?[=:]"?)\d+`)
 
 // relayNorm blanks what legitimately differs between two runs of the same request: time, duration, request id
@@ -177,6 +178,10 @@ func relaySweep(e *hk.Env, k lg.Kind, th int, shape string, l, ls *logger.Logger
 			n[i]++
 			line := bytes.ReplaceAll(relayNorm(k, ch, got.tid), []byte(got.marker), []byte("MARKER"))
 			same := ref[i] != nil && bytes.Equal(line, ref[i])
+			if i == 1 && ref[i] != nil && !same {
+				// REQ_END carries the duration in milliseconds (Nano: without a key): compare with every number blanked
+				same = bytes.Equal(reRelayNum.ReplaceAll(line, []byte("N")), reRelayNum.ReplaceAll(ref[i], []byte("N")))
+			}
 			if i == 2 && ref[i] != nil {
 				h1, t1 := relayHeadTail(line, "MARKER")
 				h2, t2 := relayHeadTail(ref[i], "MARKER")
